@@ -1,11 +1,13 @@
 /-
 C12 — Containment, overlap and emptiness answers about constraints are never wrong.
 Property theorems only (helper lemmas in Proofs/VRangePred.lean).  Staging: everything is proved for
-non-union operands (`Version`, `VersionRange`, empty) and for range-vs-union containment; the
-union × union merge walks are stated (`*_full_statement`) and not proved.
+non-union operands (`Version`, `VersionRange`, empty), for range-vs-union containment and for the
+union merge walks of `allows_all` (yes sound) and `allows_any` (no sound), the latter two with membership
+as the disjunction over members (`allowsPlain`); `allows_any ↔ intersect` for unions is stated only.
 Vocabulary as in C05; `RC.NE` = the range is inhabited as far as its own ends tell.
 -/
 import PoetryVerif.Proofs.VRangePred
+import PoetryVerif.Proofs.VRangeWalk
 
 set_option linter.unusedSimpArgs false
 set_option linter.unusedVariables false
@@ -120,9 +122,29 @@ theorem self_allows_any_member (c : RC) (hc : c.WF) (hne : c.NE) :
     cases c <;> rfl
   rw [e]; exact RC.allowsAny_self c hc hne
 
+/-! ## union level: the merge walks -/
+
+/-- **`VersionUnion.allows_all` never raises and a yes is sound**: every regular probe admitted by a member of
+the second constraint is admitted by a member of the union. -/
+theorem allows_all_sound_union (rs : List RC) (b : VC) (ho : ∀ c ∈ rs, c.WF) (ht : ∀ c ∈ b.flatten, c.WF) :
+    ∃ x, VC.allowsAll (.union rs) b = .ok x ∧
+      (x = true → ∀ p, p.wf = true → Regular (boundsOf rs ++ boundsOf b.flatten) p →
+        b.allowsPlain p = true → (VC.union rs).allowsPlain p = true) :=
+  unionAllowsAllLoop_sound (rs.length + b.flatten.length + 1) rs b.flatten (by omega) ho ht
+
+/-- **`VersionUnion.allows_any` never raises and a no is sound** (members of each side sorted: each strictly
+below the later ones). -/
+theorem allows_any_no_sound_union (rs : List RC) (b : VC) (ho : ∀ c ∈ rs, c.WF) (ht : ∀ c ∈ b.flatten, c.WF)
+    (hso : SortedRC rs) (hst : SortedRC b.flatten) :
+    ∃ x, VC.allowsAny (.union rs) b = .ok x ∧
+      (x = false → ∀ p, p.wf = true → Regular (boundsOf rs ++ boundsOf b.flatten) p →
+        ¬ ((VC.union rs).allowsPlain p = true ∧ b.allowsPlain p = true)) :=
+  unionAllowsAnyLoop_sound (rs.length + b.flatten.length + 1) rs b.flatten (by omega) ho ht hso hst
+
 /-- The property at full strength, for arbitrary constraints (unions included).  Proved above for
-non-union operands (`*_member`) and for range-vs-union containment; the union × union merge walks
-(`unionAllowsAllLoop`, `unionAllowsAnyLoop`) are not proved. -/
+non-union operands (`*_member`), range-vs-union containment and the soundness of the union merge walks
+(`allows_all_sound_union`, `allows_any_no_sound_union`, over `allowsPlain`); not proved: `allows_any` ↔ intersection
+and the self laws for unions, and `allows` = `allowsPlain` for unions excluding a single local version. -/
 def C12_full_statement : Prop :=
   ∀ a b : VC, a.WF → b.WF →
     (∃ x y, VC.allowsAll a b = .ok x ∧ VC.allowsAny a b = .ok y) ∧
